@@ -29,28 +29,32 @@ open CC.Spec
 open CC.Spec.LSeq (CmpPreorder)
 
 /-- **`cc_list_sort_in_place` at the level of the links**: the same nodes (`msortC` permutes the cells), represented — hence
-well-formed — again; the allocator triple and the serial counter are untouched, nothing outside the list is written -/
+well-formed — again; the allocator triple and the serial counter are untouched, nothing outside the list is written; **no
+fault**: every node `merge` dereferences (`l_part->data`, `r_part->data`, the arguments of `link_behind`) is a live node of the
+list (the ledger comes back as it went in) -/
 theorem sort_in_place_links {cmp : Nat → Nat → Int} (hc : CmpPreorder cmp) (s : St) (l : Hdr) (cs : List Cell)
-    (r : PList.Repr s.heap l cs) :
-    PList.Repr (PList.sortInPlace cmp s l).1.heap (PList.sortInPlace cmp s l).2 (PList.msortC cmp cs.length cs) ∧
+    (r : PList.Repr s.heap l cs) (m : Mem) :
+    PList.Repr (PList.sortInPlace cmp s l m).1.heap (PList.sortInPlace cmp s l m).2.1 (PList.msortC cmp cs.length cs) ∧
     (PList.msortC cmp cs.length cs).Perm cs ∧
-    (PList.sortInPlace cmp s l).2.triple = l.triple ∧ (PList.sortInPlace cmp s l).1.fresh = s.fresh ∧
-    (∀ b, b ∉ idsOf cs → (PList.sortInPlace cmp s l).1.heap b = s.heap b) :=
-  ⟨(PList.sortInPlace_spec hc s l cs r).1, PList.msortC_perm _ _, (PList.sortInPlace_spec hc s l cs r).2.1,
-   (PList.sortInPlace_spec hc s l cs r).2.2.1, (PList.sortInPlace_spec hc s l cs r).2.2.2⟩
+    (PList.sortInPlace cmp s l m).2.1.triple = l.triple ∧ (PList.sortInPlace cmp s l m).1.fresh = s.fresh ∧
+    (∀ b, b ∉ idsOf cs → (PList.sortInPlace cmp s l m).1.heap b = s.heap b) ∧
+    (PList.sortInPlace cmp s l m).2.2 = m :=
+  ⟨(PList.sortInPlace_spec hc s l cs m r).1, PList.msortC_perm _ _, (PList.sortInPlace_spec hc s l cs m r).2.1,
+   (PList.sortInPlace_spec hc s l cs m r).2.2.1, (PList.sortInPlace_spec hc s l cs m r).2.2.2.1,
+   (PList.sortInPlace_spec hc s l cs m r).2.2.2.2⟩
 
 /-- **both traversal directions after `cc_list_sort_in_place`** (raw links): the list is well-formed, the content along `next`
 from `head` is the content the code-level sequence model computes (`C18List`: an ordered, stable permutation), and the
 content along `prev` from `tail` is its exact reverse -/
 theorem sort_in_place_mirror {cmp : Nat → Nat → Int} (hc : CmpPreorder cmp) (s : St) (l : Hdr) (cs : List Cell)
     (r : PList.Repr s.heap l cs) (m : Mem) :
-    PList.WF (PList.sortInPlace cmp s l).1.heap (PList.sortInPlace cmp s l).2 ∧
-    PList.fwd (PList.sortInPlace cmp s l).1.heap (PList.sortInPlace cmp s l).2 =
+    PList.WF (PList.sortInPlace cmp s l m).1.heap (PList.sortInPlace cmp s l m).2.1 ∧
+    PList.fwd (PList.sortInPlace cmp s l m).1.heap (PList.sortInPlace cmp s l m).2.1 =
       (DList.sortInPlaceC cmp (ofList l.triple (dataOf cs)) m).1.abs ∧
-    PList.bwd (PList.sortInPlace cmp s l).1.heap (PList.sortInPlace cmp s l).2 =
-      (PList.fwd (PList.sortInPlace cmp s l).1.heap (PList.sortInPlace cmp s l).2).reverse :=
-  ⟨⟨_, (PList.sortInPlace_spec hc s l cs r).1⟩, PList.sortInPlace_fwd hc s l cs r m,
-   PList.mirror ⟨_, (PList.sortInPlace_spec hc s l cs r).1⟩⟩
+    PList.bwd (PList.sortInPlace cmp s l m).1.heap (PList.sortInPlace cmp s l m).2.1 =
+      (PList.fwd (PList.sortInPlace cmp s l m).1.heap (PList.sortInPlace cmp s l m).2.1).reverse :=
+  ⟨⟨_, (PList.sortInPlace_spec hc s l cs m r).1⟩, PList.sortInPlace_fwd hc s l cs r m,
+   PList.mirror ⟨_, (PList.sortInPlace_spec hc s l cs m r).1⟩⟩
 
 /-- **`cc_list_sort` at the level of the links** (allocation granted, non-empty list): same nodes in the same order, only
 `data` rewritten with the sorted array; well-formed, so mirrored; status, content and ledger are those of `DList.sort` -/
@@ -86,20 +90,61 @@ theorem slist_sort_links (sortFn : List Nat → List Nat) (hlen : ∀ xs, (sortF
   rw [h1, h2, h3, h5.fwd, h7, SList.sort_ofList sortFn hlen]
   simp [hne, ha]
 
+/-- **`cc_list_sort_in_place`, one statement on the raw links**: for every total-preorder comparator and every represented list,
+the content read along `next` from `head` after the sort is a **permutation** of the old content, **ordered** (no element
+compares greater than a later one), **stable** (every ordered subsequence of the input — in particular every pair of equal
+elements — keeps its relative order), it is the stable sort of the ideal list; the content along `prev` from `tail` is its exact
+reverse; the nodes are the old nodes (a permutation of the cells) -/
+theorem sort_in_place_fwd_correct {cmp : Nat → Nat → Int} (hc : CmpPreorder cmp) (s : St) (l : Hdr) (cs : List Cell)
+    (r : PList.Repr s.heap l cs) (m : Mem) :
+    (PList.fwd (PList.sortInPlace cmp s l m).1.heap (PList.sortInPlace cmp s l m).2.1).Perm (dataOf cs) ∧
+    (PList.fwd (PList.sortInPlace cmp s l m).1.heap (PList.sortInPlace cmp s l m).2.1).Pairwise (fun a b => cmp a b ≤ 0) ∧
+    (∀ c : List Nat, c.Sublist (dataOf cs) → c.Pairwise (fun a b => cmp a b ≤ 0) →
+      c.Sublist (PList.fwd (PList.sortInPlace cmp s l m).1.heap (PList.sortInPlace cmp s l m).2.1)) ∧
+    PList.fwd (PList.sortInPlace cmp s l m).1.heap (PList.sortInPlace cmp s l m).2.1 = LSeq.stableSort cmp (dataOf cs) ∧
+    PList.bwd (PList.sortInPlace cmp s l m).1.heap (PList.sortInPlace cmp s l m).2.1 =
+      (PList.fwd (PList.sortInPlace cmp s l m).1.heap (PList.sortInPlace cmp s l m).2.1).reverse ∧
+    (PList.msortC cmp cs.length cs).Perm cs := by
+  obtain ⟨_, hf, hm⟩ := sort_in_place_mirror hc s l cs r m
+  obtain ⟨_, _, h3, h4, h5, h6⟩ := C18List.sort_in_place_code_correct hc (ofList l.triple (dataOf cs)) (ofList_inv _) m
+  rw [ofList_abs] at h4 h6
+  refine ⟨by rw [hf]; exact h4, by rw [hf]; exact h5, fun c hs hp => by rw [hf]; exact h6 c hs hp, ?_, hm, PList.msortC_perm _ _⟩
+  rw [hf, h3, ofList_abs, ofList_abs]
+
+/-! ## the other outcomes of the two `sort`s (obligations, not only helper lemmas) -/
+
+/-- `cc_list_sort` on an empty list: `CC_ERR_INVALID_RANGE` (from `to_array`), nothing touched; a refused array:
+`CC_ERR_ALLOC`, nothing touched (heap, header), the ledger is the one after the refused request -/
+theorem dlist_sort_rejected (sortFn : List Nat → List Nat) (hlen : ∀ xs, (sortFn xs).length = xs.length) (s : St) (l : Hdr)
+    (cs : List Cell) (m : Mem) (r : PList.Repr s.heap l cs) :
+    (cs = [] → PList.sort sortFn s l m = (.errInvalidRange, s, l, m)) ∧
+    (cs ≠ [] → (m.allocT l.triple).1 = false → PList.sort sortFn s l m = (.errAlloc, s, l, (m.allocT l.triple).2)) :=
+  ⟨(PList.sort_spec sortFn hlen s l cs m r).1, (PList.sort_spec sortFn hlen s l cs m r).2.1⟩
+
+/-- `cc_slist_sort`: a one-element list returns `CC_OK` at once (no allocation); a refused array: `CC_ERR_ALLOC`, nothing
+touched.  (An empty list takes the general path with a zero-length array: `slist_sort_links` with `cs = []`; the model grants
+a zero-size request unless the schedule refuses it — an allocator answering NULL for size 0 would make the C code report
+`CC_ERR_ALLOC`, see `C18List`.) -/
+theorem slist_sort_rejected (sortFn : List Nat → List Nat) (hlen : ∀ xs, (sortFn xs).length = xs.length) (s : St) (l : Hdr)
+    (cs : List Cell) (m : Mem) (r : PSList.SRepr s.heap l cs) :
+    (cs.length = 1 → PSList.sort sortFn s l m = (.ok, s, l, m)) ∧
+    (cs.length ≠ 1 → (m.allocT l.triple).1 = false → PSList.sort sortFn s l m = (.errAlloc, s, l, (m.allocT l.triple).2)) :=
+  ⟨(PSList.sort_spec sortFn hlen s l cs m r).1, (PSList.sort_spec sortFn hlen s l cs m r).2.1⟩
+
 /-! ## Non-vacuity: an in-place sort by key (stable), read along both link directions; node identity is kept -/
 example :
     (PList.fwd (PList.sortInPlace LSeq.cmpKey
         (PList.prun ⟨fun _ => true, LSeq.cmpNum⟩ (C04PList.fresh .conf .conf) [.addLast 31, .addLast 12, .addLast 21, .addLast 42, .addLast 11] {}).2.1.st
-        (PList.prun ⟨fun _ => true, LSeq.cmpNum⟩ (C04PList.fresh .conf .conf) [.addLast 31, .addLast 12, .addLast 21, .addLast 42, .addLast 11] {}).2.1.l1).1.heap
+        (PList.prun ⟨fun _ => true, LSeq.cmpNum⟩ (C04PList.fresh .conf .conf) [.addLast 31, .addLast 12, .addLast 21, .addLast 42, .addLast 11] {}).2.1.l1 {}).1.heap
       (PList.sortInPlace LSeq.cmpKey
         (PList.prun ⟨fun _ => true, LSeq.cmpNum⟩ (C04PList.fresh .conf .conf) [.addLast 31, .addLast 12, .addLast 21, .addLast 42, .addLast 11] {}).2.1.st
-        (PList.prun ⟨fun _ => true, LSeq.cmpNum⟩ (C04PList.fresh .conf .conf) [.addLast 31, .addLast 12, .addLast 21, .addLast 42, .addLast 11] {}).2.1.l1).2,
+        (PList.prun ⟨fun _ => true, LSeq.cmpNum⟩ (C04PList.fresh .conf .conf) [.addLast 31, .addLast 12, .addLast 21, .addLast 42, .addLast 11] {}).2.1.l1 {}).2.1,
      PList.bwd (PList.sortInPlace LSeq.cmpKey
         (PList.prun ⟨fun _ => true, LSeq.cmpNum⟩ (C04PList.fresh .conf .conf) [.addLast 31, .addLast 12, .addLast 21, .addLast 42, .addLast 11] {}).2.1.st
-        (PList.prun ⟨fun _ => true, LSeq.cmpNum⟩ (C04PList.fresh .conf .conf) [.addLast 31, .addLast 12, .addLast 21, .addLast 42, .addLast 11] {}).2.1.l1).1.heap
+        (PList.prun ⟨fun _ => true, LSeq.cmpNum⟩ (C04PList.fresh .conf .conf) [.addLast 31, .addLast 12, .addLast 21, .addLast 42, .addLast 11] {}).2.1.l1 {}).1.heap
       (PList.sortInPlace LSeq.cmpKey
         (PList.prun ⟨fun _ => true, LSeq.cmpNum⟩ (C04PList.fresh .conf .conf) [.addLast 31, .addLast 12, .addLast 21, .addLast 42, .addLast 11] {}).2.1.st
-        (PList.prun ⟨fun _ => true, LSeq.cmpNum⟩ (C04PList.fresh .conf .conf) [.addLast 31, .addLast 12, .addLast 21, .addLast 42, .addLast 11] {}).2.1.l1).2) =
+        (PList.prun ⟨fun _ => true, LSeq.cmpNum⟩ (C04PList.fresh .conf .conf) [.addLast 31, .addLast 12, .addLast 21, .addLast 42, .addLast 11] {}).2.1.l1 {}).2.1) =
     ([31, 21, 11, 12, 42], [42, 12, 11, 21, 31]) := by decide
 
 end CC.Properties.C18PList
